@@ -21,7 +21,9 @@
      For hd b        for (hd) { b }   (hd: declarations and references of the loop head)
      Catch hd b      catch (hd) { b }
      Class nm ms     class [nm] { ms } as expression (nm = Some) or the body of a class
-                     declaration (nm = None, preceded by Decl DLex name)                    *)
+                     declaration (nm = None, preceded by Decl DLex name); a member
+                     Func None ps b is a method, and with ps = Done also a static block
+                     static { b } (a function scope of its own, parse.go parseClassElement)  *)
 From Verif Require Import Common.Base JsScope.Model.
 
 Inductive dkind := DVar | DFun | DLex | DParam | DCatch.
@@ -320,7 +322,7 @@ Definition is_nil (l : list Z) : bool := match l with [] => true | _ => false en
      - no default value mentions a name that the function body declares
    (on both, /repo deviates from ECMAScript: resolution_param_defaults_refuted);
    class bodies without a class-expression name: methods, field values and computed keys, static blocks
-   without var (c04-es:class-static-block-var). *)
+   (a static block is a function scope without parameters, Func None Done b: Proofs.static_block_mark_noop). *)
 Fixpoint core_d (p : prog) : bool :=
   match p with
   | Done => true
